@@ -522,6 +522,15 @@ func (v *VResult) validateInvoke(c *Case, tr *Trace, rt *RT, i int, op Op, out O
 				if ii.MidKeys != nil && g.F != nil && sideFnOf(c, g.ID) == g.F {
 					midFn = true // registered (and perhaps already demanded) during this very Invoke
 				}
+				if ii.MidKeys != nil && g.Kind == KDeco {
+					// a decorator of a key whose constructor was registered
+					// during this very Invoke
+					for _, k := range g.Keys() {
+						if ii.MidKeys[k] {
+							midFn = true
+						}
+					}
+				}
 				if !ii.MayRun[g.ID] && !midFn {
 					v.add(COutsideClosure, i, "%v ran but is not reachable from the invoked function (mayRun=%v)", g, sortedIDs(ii.MayRun))
 				}
